@@ -7,7 +7,7 @@
     The level decoder round trip comes from Writer/LevelProofs.v. *)
 From Coq Require Import NArith ZArith Arith List Bool Lia.
 From Carquet Require Import Base.Res Base.Bits Enc.DeltaBits Enc.PlainModel Enc.PlainProofs
-  Writer.TableSpec Writer.PageWriterModel Reader.PageDecodeModel.
+  Stats.StatsBuilderModel Writer.TableSpec Writer.PageWriterModel Reader.PageDecodeModel.
 From Carquet Require Writer.LevelProofs Enc.RleModel.
 Import ListNotations.
 Local Open Scope N_scope.
@@ -222,6 +222,81 @@ Proof.
     rewrite ?map_app, ?flat_map_app, ?concat_app; reflexivity.
 Qed.
 
+(* ------------------------------------------------------------------ the page statistics stay small *)
+
+Definition small_val (v : list N) : Prop := LevelProofs.is_bytes v /\ (length v <= 8)%nat.
+
+(** the statistics component of the page writer after [n] rows: counters in step with the page, null count
+    within the row count, min / max (when present) byte images of at most 8 bytes *)
+Record StatsOK (c : column) (s : pwriter) (n : N) : Prop := mkStatsOK {
+  so_type : pw_type s = stats_type (c_type c);
+  so_md : pw_max_def s = Z.of_N (max_def c);
+  so_nv : pw_num_values s = Z.of_N n;
+  so_nulls : (0 <= pw_num_nulls s <= Z.of_N n)%Z;
+  so_min : small_val (pw_min s);
+  so_max : small_val (pw_max s)
+}.
+
+Lemma small_nil : small_val [].
+Proof. split; [constructor|cbn; lia]. Qed.
+
+Lemma stats_init c : StatsOK c (pw_create (stats_type (c_type c)) (Z.of_N (max_def c))) 0.
+Proof. constructor; cbn; try reflexivity; try lia; apply small_nil. Qed.
+
+Lemma pw_step_ok s v : small_val v -> small_val (pw_min s) -> small_val (pw_max s) ->
+  small_val (pw_min (pw_step s v)) /\ small_val (pw_max (pw_step s v)) /\
+  pw_type (pw_step s v) = pw_type s /\ pw_max_def (pw_step s v) = pw_max_def s /\
+  pw_num_values (pw_step s v) = pw_num_values s /\ pw_num_nulls (pw_step s v) = pw_num_nulls s.
+Proof.
+  intros Hv Hmin Hmax. unfold pw_step. destruct (Order.val_nan (pw_type s) v); [auto 10|].
+  destruct (negb (pw_has_min_max s)); cbn; [auto 10|].
+  destruct (w_lt (pw_type s) v (pw_min s)), (w_lt (pw_type s) (pw_max s) v); auto 10.
+Qed.
+
+Lemma fold_pw_step_ok : forall vals s, Forall small_val vals -> small_val (pw_min s) -> small_val (pw_max s) ->
+  let s' := fold_left pw_step vals s in
+  small_val (pw_min s') /\ small_val (pw_max s') /\ pw_type s' = pw_type s /\ pw_max_def s' = pw_max_def s /\
+  pw_num_values s' = pw_num_values s /\ pw_num_nulls s' = pw_num_nulls s.
+Proof.
+  induction vals as [|v vals IH]; intros s Hv Hmin Hmax; [cbn; auto 10|].
+  inversion Hv as [|? ? Hv1 Hv2]; subst. cbn [fold_left].
+  destruct (pw_step_ok s v Hv1 Hmin Hmax) as (A & B & C & D & E & F).
+  destruct (IH (pw_step s v) Hv2 A B) as (A' & B' & C' & D' & E' & F'). cbv zeta in *.
+  rewrite C', D', E', F'. auto 10.
+Qed.
+
+Lemma filter_length_le {A} (f : A -> bool) l : (length (filter f l) <= length l)%nat.
+Proof. induction l as [|x l IH]; cbn; [lia|]. destruct (f x); cbn; lia. Qed.
+
+Lemma pw_add_values_ok c s n vals k dsZ :
+  StatsOK c s n -> (pw_tracks (pw_type s) = true -> Forall small_val vals) ->
+  match dsZ with Some l => (length l <= k)%nat | None => True end ->
+  StatsOK c (pw_add_values s vals (Z.of_nat k) dsZ) (n + N.of_nat k).
+Proof.
+  intros [T M V Nl Smin Smax] Hvals Hds. unfold pw_add_values.
+  set (nulls := match dsZ with Some ds => _ | None => 0%Z end).
+  assert (Hn : (0 <= nulls <= Z.of_nat k)%Z).
+  { unfold nulls. destruct dsZ as [l|]; [|lia]. destruct (0 <? pw_max_def s)%Z; [|lia].
+    pose proof (filter_length_le (fun d => (d =? pw_max_def s)%Z) l). lia. }
+  set (s1 := mkPW _ _ _ _ _ _ _).
+  assert (S1 : StatsOK c s1 (n + N.of_nat k)).
+  { constructor; cbn; try assumption; lia. }
+  destruct (pw_tracks (pw_type s)) eqn:Tr; [|exact S1].
+  destruct S1 as [T1 M1 V1 N1 Smin1 Smax1].
+  destruct (fold_pw_step_ok vals s1 (Hvals eq_refl) Smin1 Smax1) as (A & B & C & D & E & F). cbv zeta in *.
+  constructor; [rewrite C; exact T1|rewrite D; exact M1|rewrite E; exact V1|rewrite F; exact N1|exact A|exact B].
+Qed.
+
+Lemma tracked_vals_small c vals : pw_tracks (stats_type (c_type c)) = true ->
+  forallb (value_ok c) vals = true -> Forall small_val vals.
+Proof.
+  intros Tr H. apply Forall_forall. intros v Hv. rewrite forallb_forall in H. specialize (H v Hv).
+  unfold value_ok in H. apply andb_prop in H. destruct H as [Hb Ht]. split.
+  - apply Forall_forall. intros x Hx. rewrite forallb_forall in Hb. apply N.ltb_lt. apply (Hb x Hx).
+  - revert Tr Ht. destruct (c_type c); cbn [stats_type pw_tracks width]; intros Tr Ht; try discriminate;
+      apply Nat.eqb_eq in Ht; lia.
+Qed.
+
 (* ------------------------------------------------------------------ the page invariant *)
 
 Record PInv (c : column) (w : pw) (rows : list row) : Prop := mkPInv {
@@ -230,11 +305,14 @@ Record PInv (c : column) (w : pw) (rows : list row) : Prop := mkPInv {
   pi_values : p_values w = plain_all (c_type c) (dense rows);
   pi_num : p_num_values w = len rows;
   pi_nb : c_type c = TBool -> p_num_booleans w = len (dense rows);
-  pi_ok : forallb (row_ok c) rows = true
+  pi_ok : forallb (row_ok c) rows = true;
+  pi_stats : StatsOK c (p_stats w) (len rows)
 }.
 
 Lemma pinv_init c : PInv c (pw_init c) [].
-Proof. constructor; try reflexivity. destruct (c_rep c); reflexivity. destruct (c_type c); reflexivity. Qed.
+Proof.
+  constructor; try reflexivity; [destruct (c_rep c); reflexivity|destruct (c_type c); reflexivity|apply stats_init].
+Qed.
 
 Lemma rows_of_batch_ok c b : batch_ok c b = true -> forallb (row_ok c) (rows_of_batch c b) = true.
 Proof.
@@ -289,7 +367,7 @@ Theorem add_values_inv c w rows b : PInv c w rows -> batch_ok c b = true ->
   exists w', add_values w b = Ok w' /\ PInv c w' (rows ++ rows_of_batch c b).
 Proof.
   intros I Hb. pose proof (rows_of_batch_ok c b Hb) as Hrows.
-  destruct I as [Ic Id Iv In Inb Iok].
+  destruct I as [Ic Id Iv In Inb Iok Ist].
   unfold batch_ok in Hb. apply andb_prop in Hb. destruct Hb as [Hvals Hb].
   unfold add_values. rewrite Ic. unfold max_def.
   (* the three shapes of a call *)
@@ -320,11 +398,11 @@ Proof.
         rewrite <- (assemble_levels d (b_vals b) Hd Hc) at 2. unfold levels_of. rewrite map_length. reflexivity.
       + apply Nat.eqb_eq in Hb. exists None, (repeat 1 (b_nrows b)). change (0 <? 1) with true. cbn [andb].
         rewrite dense_some, map_length, levels_of_some, Hb. repeat split; reflexivity. }
-  destruct Shape as (ds & lv & -> & -> & Hnn & Hdense & Hlen & Hlv).
+  destruct Shape as (ds & lv & Hds & -> & Hnn & Hdense & Hlen & Hlv). rewrite Hds.
   rewrite Hnn, Nat.ltb_irrefl, firstn_all.
   rewrite (values_step c w rows (b_vals b) Iv Inb).
   eexists. split; [reflexivity|].
-  constructor; cbn [p_col p_defs p_values p_num_values p_num_booleans].
+  constructor; cbn [p_col p_defs p_values p_num_values p_num_booleans p_stats].
   - reflexivity.
   - rewrite Id. destruct (c_rep c); [reflexivity|]. destruct Hlv as [L1 L2].
     change (0 <? 1) with true. cbn iota. rewrite levels_of_app, L2, <- L1. destruct ds; reflexivity.
@@ -332,6 +410,12 @@ Proof.
   - rewrite In, len_app'. unfold len. rewrite Hlen. reflexivity.
   - intros T. rewrite T, dense_app, Hdense. reflexivity.
   - rewrite forallb_app, Iok, Hrows. reflexivity.
+  - rewrite len_app'. replace (len (rows_of_batch c b)) with (N.of_nat (b_nrows b)) by (unfold len; rewrite Hlen; reflexivity).
+    apply pw_add_values_ok; [exact Ist| |].
+    + intros Tr. rewrite (so_type _ _ _ Ist) in Tr. apply (tracked_vals_small c (b_vals b) Tr Hvals).
+    + destruct ds as [d|]; [|exact Logic.I]. rewrite map_length.
+      destruct (c_rep c); [discriminate Hds|]. destruct (b_defs b); [|discriminate Hds].
+      inversion Hds; subst d. rewrite firstn_length. lia.
 Qed.
 
 (** any number of calls: the page state after [batches] holds exactly their rows *)
@@ -560,7 +644,7 @@ Theorem page_body_roundtrip c w rows : column_ok c = true -> PInv c w rows -> ro
   exists defs vals, read_data_page_v1 c (page_body w) (p_num_values w) = Ok (defs, vals)
                     /\ rows_of_page c defs vals = rows.
 Proof.
-  intros Hc [Ic Id Iv In Inb Iok] Hne Hn Hsz.
+  intros Hc [Ic Id Iv In Inb Iok _] Hne Hn Hsz.
   unfold page_body in *. rewrite Ic, In, Id, Iv in *. unfold rows_of_page.
   destruct (c_rep c) eqn:R.
   - cbn [len length N.of_nat N.eqb app] in *.
@@ -621,7 +705,7 @@ Qed.
 (** what goes to the compressor is a byte string *)
 Lemma page_body_bytes c w rows : PInv c w rows -> len rows < 2 ^ 31 -> is_bytes (page_body w).
 Proof.
-  intros [Ic Id Iv In Inb Iok] Hn. unfold page_body. rewrite Iv. apply LevelProofs.is_bytes_app.
+  intros [Ic Id Iv In Inb Iok _] Hn. unfold page_body. rewrite Iv. apply LevelProofs.is_bytes_app.
   - destruct (len (p_defs w) =? 0); [constructor|]. rewrite Ic, Id. unfold max_def.
     destruct (c_rep c); [constructor|]. rewrite encode_levels_1. apply LevelProofs.is_bytes_app.
     + unfold le32. apply le_bytes_f_bytes.
